@@ -43,7 +43,7 @@ TICKS = 3  # raise positions in a periodic leaf: tick 1..TICKS
 PERIOD = 2  # in units; R/A children are due 1 unit after their parent
 KINDS_Q = ("VirtualTimeScheduler", "HistoricalScheduler")
 KINDS_T = ("VirtualTimeScheduler", "HistoricalScheduler", "TestScheduler")
-ACTION_METHODS = ("S", "R", "A")
+ACTION_METHODS = ("S", "R", "A", "Z")  # Z = schedule_relative(0): the zero/negative due-time boundary
 
 
 class Boom(Exception):
@@ -188,6 +188,8 @@ def execute(cfg: Cfg, tree, pos, verdict, catch: bool):
             return s.schedule(make_action(i), ("st", i))
         if m == "R":
             return s.schedule_relative(cfg.unit if use_float_abs else unit, make_action(i), ("st", i))
+        if m == "Z":
+            return s.schedule_relative(0.0 if use_float_abs else unit * 0, make_action(i), ("st", i))
         if m == "A":
             due = s.now + unit
             return s.schedule_absolute(s.to_seconds(due) if use_float_abs else due, make_action(i), ("st", i))
@@ -373,7 +375,7 @@ def run(ctx: core.Ctx):
     N = 4 if ctx.tier == "quick" else 5
     ctx.bounds = {
         "max_actions_per_tree": N,
-        "methods": ["schedule", "schedule_relative(1)", "schedule_absolute(now+1)", "schedule_periodic(2) [leaves]"],
+        "methods": ["schedule", "schedule_relative(1)", "schedule_relative(0)", "schedule_absolute(now+1)", "schedule_periodic(2) [leaves]"],
         "inner_schedulers": list(KINDS_Q if ctx.tier == "quick" else KINDS_T),
         "raise_positions": "after j children of every action node (j=0..#children); tick 1..%d of every periodic leaf" % TICKS,
         "verdicts": [True, False],
